@@ -16,7 +16,7 @@ def make_probes(case, obs, want, shim):
     if "source" in want and out.get("source", {}).get("kind") == "embedded":
         pr["source"] = P.probe_source(shim)
     if shim and "bindgroups" in want:
-        x = P.probe_bindgroups(out)
+        x = P.probe_bindgroup_ops(out, case["ops"]) if case.get("ops") else P.probe_bindgroups(out)
         if x:
             pr["bindgroups"] = x
     if shim and "pipeline_layout" in want:
